@@ -281,6 +281,28 @@ func specEncoding(rt reflect.Type, v reflect.Value, structToArray bool) (asArray
 	return
 }
 
+func hasNonNilIface(v reflect.Value) bool {
+	switch v.Kind() {
+	case reflect.Interface:
+		return !v.IsNil()
+	case reflect.Ptr:
+		return !v.IsNil() && hasNonNilIface(v.Elem())
+	case reflect.Slice, reflect.Array:
+		for i := 0; i < v.Len(); i++ {
+			if hasNonNilIface(v.Index(i)) {
+				return true
+			}
+		}
+	case reflect.Struct:
+		for i := 0; i < v.NumField(); i++ {
+			if hasNonNilIface(v.Field(i)) {
+				return true
+			}
+		}
+	}
+	return false
+}
+
 func hasMultiMap(v reflect.Value) bool {
 	switch v.Kind() {
 	case reflect.Map:
@@ -445,6 +467,9 @@ func encStream(r *vh.Rng, n int, cv *vh.Cases, sum *vh.Summary, id *int) {
 			if format == "binc" || format == "json" || info.KeyType == 3 {
 				// binc: symbols span values; json: codec.Raw keeps separators
 				continue
+			}
+			if safe && rec && hasNonNilIface(v) {
+				continue // codec.safe + RecursiveEmptyCheck descends into interface values: dynamic types are not modelled
 			}
 			canon := r.Bool() || hasMultiMap(v) // a map of several entries has no fixed order unless Canonical
 			o2 := vh.Opts{"Canonical": canon, "StructToArray": sta, "RecursiveEmptyCheck": rec}
